@@ -23,6 +23,15 @@ CLAIMED["C07"] = ("E-overflow", "Same executions as C06 under ASan+UBSan(trap)+f
 CLAIMED["C05"] = ("E-elastic", "Generated elastic_integer / elastic_scaled_integer kernels (operator x digit pair x signedness x narrowest x exponents): every result compared with the exact 256-bit result, "
                   "checked to lie inside the range its own type declares and against the numeric_limits formula; declared ranges enumerated exhaustively for small digit sums, boundary lattices otherwise; UBSan traps attributed per input.",
                   "DESIGN.md §4 C05", None)
+CLAIMED["C01"] = ("E-scaled", "Generated scaled_integer kernels (+,-,*,unary - over built-in 8..128-bit and elastic reps, exponent pairs in [-70,70], radix 2 and 10, plain-integer operands) from a frozen instantiable universe; "
+                  "each result's rep, exponent and radix compared with exact 256-bit arithmetic on rep*radix^exponent inside the property's own domain (computed from values and C++ promotion rules); UBSan traps attributed per input.", "DESIGN.md §4 C01", None)
+CLAIMED["C02"] = ("E-scaled", "Generated /, % and quotient() kernels: quotient rep == trunc(ra/rb) at exponent ea-eb, remainder == C++ remainder at exponent ea (hence the identity, sign and magnitude clauses), "
+                  "quotient() == true quotient truncated toward zero at the result type's own resolution, for built-in (incl. mixed signedness) and elastic reps; exact 256-bit oracle.", "DESIGN.md §4 C02", None)
+CLAIMED["C03"] = ("E-scaled+E-elastic", "All six comparison operators on generated scaled_integer (radix 2/10, exponent pairs), elastic_integer / elastic_scaled_integer (digit, signedness, narrowest pairs) kernels compared with the exact order of the denoted values, "
+                  "plus oracle-independent mutual-consistency checks and the built-in-vs-wrapped clause.", "DESIGN.md §4 C03", None)
+CLAIMED["C04"] = ("E-scaled", "Generated conversion kernels between scaled_integer instantiations, plain integers and float/double/long double: integer results compared online with the exact truncated quotient (static_cast and constructor must agree), "
+                  "floating results logged and judged offline with exact rationals (nearest-even for scaled->float, truncation for float->scaled, round-trip identity), from_rep/to_rep and wrap/unwrap inverses.", "DESIGN.md §4 C04",
+                  "sanitizer-instrumented execution judged online by an exact 256-bit oracle and offline by a python Fraction checker over the recorded event log")
 PLANNED = {}
 
 
